@@ -27,7 +27,7 @@ FRAME_IFACES = ['iter_array', 'iter_array_items', 'iter_series', 'iter_series_it
                 'iter_window_array', 'iter_window_array_items', 'iter_group_labels', 'iter_group_labels_items']
 BATCH_STEPS = ['apply', 'apply_items', 'apply_series', 'apply_element', 'iloc', 'loc_cols', 'mul', 'sum', 'getitem', 'head',
                'apply_except', 'apply_items_except', 'rename', 'sort_index', 'transpose', 'cumsum', 'drop', 'min', 'neg', 'loc_rows', 'tail',
-               'sum_noskip', 'mean', 'max', 'apply_none', 'apply_none_except', 'apply_grow', 'rsub', 'rmul', 'rfloordiv', 'apply_list', 'drop_getitem', 'drop_loc', 'apply_ragged', 'iloc_nocols']
+               'sum_noskip', 'mean', 'max', 'apply_none', 'apply_none_except', 'apply_grow', 'rsub', 'rmul', 'rfloordiv', 'apply_list', 'drop_getitem', 'drop_loc', 'apply_ragged', 'iloc_nocols', 'apply_mixed']
 
 
 def gen_cells(ch, nr, j, kind):
@@ -247,7 +247,7 @@ class PoolWorld(WorldBase):
         depth = ch.randint(1, 3)
         chain = [ch.choice(BATCH_STEPS) for _ in range(depth)]
         for i, st_ in enumerate(chain):
-            if st_ in ('sum', 'min', 'mean', 'max', 'sum_noskip', 'apply_element', 'apply_series', 'apply_none', 'apply_none_except', 'apply_list', 'apply_ragged', 'iloc_nocols'):
+            if st_ in ('sum', 'min', 'mean', 'max', 'sum_noskip', 'apply_element', 'apply_series', 'apply_none', 'apply_none_except', 'apply_list', 'apply_ragged', 'iloc_nocols', 'apply_mixed'):
                 chain = chain[:i + 1]  # nothing is chained after a dimension-reducing step
                 break
         op = {'op': 'batch_pool', 'frames': frames, 'chain': chain, 'export': ch.choice(['items', 'to_frame', 'to_bus', 'items_partial', 'to_frame_axis1']),
@@ -266,7 +266,8 @@ class PoolWorld(WorldBase):
         frames = [gen_frame(ch, 'z%d' % i, nr=ch.randint(1, 4), nc=ch.randint(1, 3), hier=ch.chance(0.4)) for i in range(n)]
         op = {'op': 'zip_pool', 'frames': frames, 'cfgmap': ch.chance(0.6), 'fmt': ch.choice(['zip_pickle', 'zip_csv', 'zip_tsv']),
               'wk': ch.choice([None, 1, 2, 4]), 'wc': ch.randint(1, n + 1), 'rk': ch.choice([None, 1, 2, 4]), 'rc': ch.randint(1, n + 1),
-              'mp': ch.choice([None, None, 1, 2]), 'access': ch.choice(['values', 'items', 'list', 'one_by_one'])}
+              'mp': ch.choice([None, None, 1, 2]), 'access': ch.choice(['values', 'items', 'list', 'one_by_one']),
+              'lenc': ch.chance(0.25), 'nocols': ch.chance(0.2)}
         if ch.chance(self.config['p_fault']):
             op['crash_at'] = ch.randint(0, n)
             op['crash_in'] = ch.choice(['write', 'read'])
@@ -578,6 +579,8 @@ class PoolWorld(WorldBase):
                 b = b.apply(functools.partial(pf.frame_to_list, fail_on=fail_label))
             elif step == 'apply_ragged':
                 b = b.apply(functools.partial(pf.frame_to_ragged, fail_on=fail_label))
+            elif step == 'apply_mixed':
+                b = b.apply(functools.partial(pf.frame_mixed_dim, fail_on=fail_label))
             elif step == 'iloc_nocols':
                 b = b.iloc[:, 0:0]  # every result keeps its rows and has no column
             elif step == 'apply_except':
@@ -740,6 +743,8 @@ class PoolWorld(WorldBase):
                         c = pf.frame_to_list(c, fail_on=fail_label)
                     elif step == 'apply_ragged':
                         c = pf.frame_to_ragged(c, fail_on=fail_label)
+                    elif step == 'apply_mixed':
+                        c = pf.frame_mixed_dim(c, fail_on=fail_label)
                     elif step == 'iloc_nocols':
                         c = c.iloc[:, 0:0]
                     elif step == 'apply_except':
@@ -878,6 +883,18 @@ class PoolWorld(WorldBase):
             all_series = all(isinstance(v, sf.Series) for _, v in res)
             all_frames = all(isinstance(v, sf.Frame) for _, v in res)
             want = None
+            if (not all_series and not all_frames and axis == 0 and not op2.get('tf_auto')
+                    and all(isinstance(v, (sf.Series, sf.Frame)) and 0 not in v.shape for _, v in res)):
+                # results of mixed dimensionality: the reference is the library's own concatenation of exactly those results
+                st_w, want_f = call(lambda: sf.Frame.from_concat_items(res, axis=0))
+                if st_w == 'ok':
+                    if exp[0] == 'raise':
+                        raise Violation('C19.batch', 'Batch.' + ex, cls, f'exporter raised {type(exp[1]).__name__}: {exp[1]} for results of mixed dimensionality')
+                    sa, sb = snap(want_f), snap(exp[1])
+                    sa.pop('name', None), sb.pop('name', None)
+                    if sa != sb:
+                        raise Violation('C19.batch', 'Batch.' + ex, cls, 'export of mixed-dimensional results is not their concatenation: ' + first_diff(sa, sb))
+                    self.stats['batch:export-checked'] += 1
             nocols = all_frames and axis == 0 and all(v.shape[1] == 0 and v.shape[0] > 0 for _, v in res)
             if nocols:
                 # results that kept their rows and have no column: the export has all the rows (under the outer labels) and no column
@@ -969,7 +986,12 @@ class PoolWorld(WorldBase):
 
         def cfg(wk, wc, rk, rc):
             def one(depth):
-                return sf.StoreConfig(index_depth=depth, write_max_workers=wk, write_chunksize=wc, read_max_workers=rk, read_chunksize=rc)
+                extra = {}
+                if op.get('lenc') and fmt != 'zip_pickle':
+                    extra.update(label_encoder=str.upper, label_decoder=str.lower)  # the member name differs from the label
+                if op.get('nocols') and fmt != 'zip_pickle':
+                    extra.update(columns_depth=0, include_columns=False)  # settings that are falsy and not the default
+                return sf.StoreConfig(index_depth=depth, write_max_workers=wk, write_chunksize=wc, read_max_workers=rk, read_chunksize=rc, **extra)
             depths = {s['name']: (2 if s['hier'] else 1) for s in op['frames']}
             if op.get('cfgmap') or len(set(depths.values())) > 1:
                 # per-label configuration (index depth differs per frame); worker settings must match the default
